@@ -1191,4 +1191,41 @@ theorem ratelimit_leaves_bad_version (proto : Proto) (q : Query) (known same all
 example : ratelimitStep .udp { qDO0 with opt := some { udp := 1232, version := 1, options := [.raw codeCookie [1,2,3,4,5,6,7,8]] } } true false true = .next ∧
     ratelimitStep .udp qDO0 true false true = .badcookie := by decide
 
+/-! ### bodies the cache synthesises itself -/
+
+/-- **On bytes AD can only be cleared, never set**: whatever `WireInfo` says, a
+body whose AD bit is clear reaches the client with AD clear. -/
+theorem writeWire_ad_of_body (L : Msg → Nat) (cfg : Cfg) (w : Writer) (body r : Msg) (info : WireInfo)
+    (hb : body.fl.ad = false) (h : writeWire L cfg w body info = some r) : r.fl.ad = false := by
+  have key : (wireBody w body info).fl.ad = false := by
+    unfold wireBody; split <;> simp [hb]
+  rcases (writeWire_some L cfg w body r info h).2.1 with ⟨_, rfl⟩ | ⟨_, rfl⟩
+  · exact key
+  · exact key
+
+/-- **A cached-failure hit on the byte route respects the client**: the
+synthesised SERVFAIL echoes the query, never carries AD (whatever AD / CD the
+client set), has no OPT for a non-EDNS client, and only allowed options
+(the cached-error EDE being the one non-server option). -/
+theorem failure_hit_bytes_respects_client (L : Msg → Nat) (cfg : Cfg) (proto : Proto) (q : Query) (w : Writer)
+    (hw : WriterFor cfg proto q w) (ede : EOpt) (hede : ede.code = codeEDE) (r : Msg)
+    (h : writeWire L cfg w (failureWire q ede).1 (failureWire q ede).2 = some r) :
+    Echoes q r ∧ r.rcode = rcodeServFail ∧ r.fl.ad = false ∧ r.answer = [] ∧ r.ns = [] ∧
+    (q.opt = none → ∀ rr ∈ r.extra, rr.isOpt = false) ∧
+    (∀ o own, RR.opt o own ∈ r.extra → ∀ x ∈ o.options, Allowed cfg proto q [ede] x) := by
+  obtain ⟨w1, w2, w3, w4, w5, w6, w7⟩ := writeWire_header L cfg w _ r _ h
+  have hbx : ∀ rr ∈ (failureWire q ede).1.extra, rr.isOpt = false := by simp [failureWire]
+  refine ⟨⟨by rw [w1]; rfl, by rw [w2]; rfl, by rw [w3]; rfl, by rw [w4]; rfl⟩, by rw [w5]; rfl,
+    writeWire_ad_of_body L cfg w _ r _ rfl h, by rw [w6]; rfl, by rw [w7]; rfl, ?_, ?_⟩
+  · intro hq; exact writeWire_no_opt L cfg proto q w hw _ r _ hq hbx h
+  · have := writeWire_options L cfg proto q w hw _ r _ hbx
+      (by intro e he; simp only [failureWire, Option.some.injEq] at he; rw [← he]; exact hede) h
+    simpa [failureWire] using this
+
+-- non-vacuity: a CD=1, AD=1 client hitting a cached failure gets SERVFAIL without AD
+example : (writeWire (fun _ => 60) {} (writerWire {} .udp { qDO0 with ad := true, cd := true })
+    (failureWire { qDO0 with ad := true, cd := true } (.raw codeEDE [0, 13])).1
+    (failureWire { qDO0 with ad := true, cd := true } (.raw codeEDE [0, 13])).2).map (fun r => (r.rcode, r.fl.ad, r.fl.cd)) =
+    some (2, false, true) := by decide
+
 end SdnsVerif.Props.C06
